@@ -15,7 +15,7 @@ use crate::util::{all_strings, J};
 
 pub struct C19;
 
-const LADDER: [&str; 29] = [
+const LADDER: [&str; 33] = [
     "(?:(a)|b)b*\\1b",
     "(a)?b+\\1b",
     "(a)*[bc]*\\1b",
@@ -45,27 +45,34 @@ const LADDER: [&str; 29] = [
     "^(a*)\\1{2}b$",
     "^(?:(a)|b)\\1{2}c$",
     "^(a)\\1{2}$",
+    // n capturing alternatives that all match one character at the same position: the last
+    // one is reached only after n - 1 results at one position, and its copy must be found
+    "^(?:(a)|([ab]))+=\\2$",
+    "^(?:(a)|([ab])|([a-c]))+=\\3$",
+    "^(?:(a)|([ab])|([a-c])|([a-d]))+=\\4$",
+    "^(?:(a)|([ab])|([a-c])|([a-d])|([a-e])|--)+=\\5$",
     // a two-digit reference written inside two groups that are still open
     "^(a)(b)(c)(d)(e)(f)(g)(h)((x([ij])\\11))$",
     "(a)(b)(c)(d)(e)(f)(g)(h)(i)((j)\\11)",
 ];
-const LADDER_INPUTS: [&str; 40] = [
+const LADDER_INPUTS: [&str; 43] = [
     "bbb", "bb", "bcc", "cb", "abcab", "abcb", "aabb", "aAbB", "xx-yy.", "abab", "bab", "aaa",
     "abcdefghijj", "abcdefghija0", "abcdefghijaj", "abcdefghia0", "abcdefghijkk", "abcdefghijka2", "aa1", "abba", "abab", "abcdefghijj0", "aax", "abcdefghija",
     "k\u{212a}", "\u{212a}k", "s\u{17f}", "\u{17f}S", "MASS-ma\u{17f}s", "ma\u{17f}s-MASS", "b", "bc", "aaa", "aab", "aaaab", "abaac",
     "abcdefghxii", "abcdefghxia1", "abcdefghijj", "abcdefghija1",
+    "a=a", "ba=a", "--a=a",
 ];
 
 fn space_for(tier: Tier) -> (Space, usize) {
     let mut s = Space::new();
     match tier {
         Tier::Quick => {
-            s.ast("G", 6, 64).ast("BR", 4, 64).ast("BR3", 5, 64);
+            s.ast("G", 6, 64).ast("BR", 4, 64).ast("BR3", 5, 64).ast("BRN", 4, 64);
             s.list("ladder", LADDER.len() as u64, 2);
             (s, 3)
         }
         Tier::Thorough => {
-            s.ast("G", 8, 1024).ast("BR", 5, 64).ast("BR3", 6, 64);
+            s.ast("G", 8, 1024).ast("BR", 5, 64).ast("BR3", 6, 64).ast("BRN", 5, 64);
             s.list("ladder", LADDER.len() as u64, 2);
             (s, 4)
         }
